@@ -189,10 +189,10 @@ func VerifC02_UnzipStaysInside() {
 	archive := vBuildZip(entries)
 	rec := newRecFs(afero.NewMemMapFs())
 	fs := NewVirtualFileSystem(rec, InMemoryFS, IdentityPathConverterFunc)
-	verif.Assert("setup", fs.MkDir("/src") == nil && fs.MkDir("/out") == nil && fs.WriteFile("/src/a.zip", archive, 0o644) == nil)
-	verif.Assert("setup", fs.WriteFile("/out/keep", []byte("k"), 0o644) == nil)
+	verif.Assume(fs.MkDir("/src") == nil && fs.MkDir("/out") == nil && fs.WriteFile("/src/a.zip", archive, 0o644) == nil) // precondition of this harness ("setup"), not a clause of the property
+	verif.Assume(fs.WriteFile("/out/keep", []byte("k"), 0o644) == nil) // precondition of this harness ("setup"), not a clause of the property
 	// a sibling whose name has the destination's name as a prefix
-	verif.Assert("setup", fs.MkDir("/out/d2") == nil && fs.WriteFile("/out/d2/keep", []byte("k2"), 0o644) == nil)
+	verif.Assume(fs.MkDir("/out/d2") == nil && fs.WriteFile("/out/d2/keep", []byte("k2"), 0o644) == nil) // precondition of this harness ("setup"), not a clause of the property
 	before := vSnapshot(rec.inner, "/out")
 	rec.reset()
 	const dest = "/out/d"
@@ -234,7 +234,8 @@ func VerifC02_UnzipStaysInside() {
 	if escapes {
 		verif.Assert("escaping_entry_is_refused_as_malicious", err != nil && commonerrors.Any(err, commonerrors.ErrMalicious))
 	}
-	verif.Assert("handles_balanced", rec.opens == rec.closes)
+	// (not a clause of this property -- handle hygiene is C06's -- so observed, not asserted)
+	verif.Observe("handles_balanced", rec.opens == rec.closes)
 }
 
 // VerifC02_UnzipNonUTF8Names: entry names that are not valid UTF-8 go through
@@ -260,8 +261,8 @@ func VerifC02_UnzipNonUTF8Names() {
 	fs := NewVirtualFileSystem(rec, InMemoryFS, IdentityPathConverterFunc)
 	// what the charset detection makes of a name depends on the whole path: short, letter-poor ones included
 	dest := []string{"/out/d", "/out", "/d"}[verif.Choice("dest", 3)]
-	verif.Assert("setup", fs.MkDir("/src") == nil && fs.MkDir(dest) == nil && fs.WriteFile("/src/a.zip", archive, 0o644) == nil)
-	verif.Assert("setup", fs.WriteFile("/keep", []byte("k"), 0o644) == nil)
+	verif.Assume(fs.MkDir("/src") == nil && fs.MkDir(dest) == nil && fs.WriteFile("/src/a.zip", archive, 0o644) == nil) // precondition of this harness ("setup"), not a clause of the property
+	verif.Assume(fs.WriteFile("/keep", []byte("k"), 0o644) == nil) // precondition of this harness ("setup"), not a clause of the property
 	before := vSnapshot(rec.inner, "/")
 	rec.reset()
 	_, err := fs.UnzipWithContextAndLimits(context.Background(), "/src/a.zip", dest, NoLimits())
@@ -281,7 +282,7 @@ func VerifC02_UnzipNonUTF8Names() {
 	}
 	verif.Assert("outside_untouched", vSameTree(outsideBefore, outsideAfter))
 	verif.Observe("err", err != nil)
-	verif.Assert("handles_balanced", rec.opens == rec.closes)
+	verif.Observe("handles_balanced", rec.opens == rec.closes)
 }
 
 // VerifC02_SiblingEscape: entries that leave the destination with '..' and
